@@ -120,11 +120,12 @@ theorem exhaustedA_one_of_eigen (hN : NormContract dnorm) {v : List 𝕜} {M : N
     vget (vscale v.length (vdot v.length (st.vec 0) (Afun (st.vec 0))) (st.vec 0)) i = 0
   rw [vget_vscale hi', e, he0 i hi', sub_self]
 
-/-- **the general branch returns**: positive norm, `numiter ≥ 1`, shape clause of the `expm` contract -/
+/-- **the general branch returns**: positive norm (norm contract: then `v ≠ []` and the capped count of F11 is `≥ 1`),
+`numiter ≥ 1`, shape clause of the `expm` contract -/
 theorem expm_gen_isOk {deigh : List ℝ → List ℝ → List ℝ × Mat ℝ} {dexp : 𝕜 → 𝕜} {dexpm : Mat 𝕜 → Mat 𝕜} {v : List 𝕜}
-    {numiter : Nat} (hpos : 0 < dnorm v) (hm : 1 ≤ numiter) (hC : ExpmContract dexpm) (dt : 𝕜) :
+    {numiter : Nat} (hN : NormContract dnorm) (hpos : 0 < dnorm v) (hm : 1 ≤ numiter) (hC : ExpmContract dexpm) (dt : 𝕜) :
     ∃ r, expmKrylov Afun dnorm deigh dexp dexpm v dt numiter false = .ok r := by
-  obtain ⟨⟨H, V⟩, hl⟩ := arnoldi_isOk Afun dnorm (vstart := v) (numiter := numiter) hpos hm
+  obtain ⟨⟨H, V⟩, hl⟩ := arnoldi_isOk Afun dnorm (vstart := v) (numiter := numiter) hpos hm (hN.pos_dim hpos)
   obtain ⟨h1, _, hHn, _, hVn⟩ := C14.arnoldi_shapes Afun dnorm hl
   obtain ⟨e1, e2⟩ := hC.shape (Mat.scale dt H) (by show H.m = H.n; rw [hHn])
   have e1' : (dexpm ⟨H.m, H.n, fun r c => dt * H.f r c⟩).m = H.m := e1
